@@ -17,6 +17,10 @@ pub enum Kind {
     Inc,
     IncBurst,
     Msg,
+    /// set_position(current + 1)
+    SetPos,
+    /// set_position(current): a report that does not change the value
+    SetPosSame,
     TickB,
     IncB,
 }
@@ -154,6 +158,8 @@ impl C05 {
                     Kind::Tick | Kind::Burst => a.tick(),
                     Kind::Inc | Kind::IncBurst => a.inc(1),
                     Kind::Msg => a.set_message(format!("m{}", msg + 1)),
+                    Kind::SetPos => a.set_position(pa + 1),
+                    Kind::SetPosSame => a.set_position(pa),
                     Kind::TickB => b.as_ref().unwrap().tick(),
                     Kind::IncB => b.as_ref().unwrap().inc(1),
                 });
@@ -164,7 +170,7 @@ impl C05 {
                     inc_reach.push(t);
                 }
                 match ev.kind {
-                    Kind::Inc | Kind::IncBurst => pa += 1,
+                    Kind::Inc | Kind::IncBurst | Kind::SetPos => pa += 1,
                     Kind::IncB => pb_ += 1,
                     Kind::Msg => msg += 1,
                     _ => {}
@@ -214,11 +220,11 @@ impl C05 {
             let painted = after > before;
             if let Some(lf) = last_frame_t {
                 let need = match kind {
-                    Kind::Inc | Kind::IncBurst | Kind::IncB => i_ns + 1_000_000,
+                    Kind::Inc | Kind::IncBurst | Kind::IncB | Kind::SetPos | Kind::SetPosSame => i_ns + 1_000_000,
                     _ => i_ns,
                 };
                 if t - lf >= need && !painted {
-                    let class = if matches!(kind, Kind::Inc | Kind::IncBurst | Kind::IncB) { "staleness: an inc arriving more than one refresh interval + 1 ms after the last frame is not painted" } else { "staleness: a redraw request arriving at least one refresh interval after the last frame is not painted" };
+                    let class = if matches!(kind, Kind::Inc | Kind::IncBurst | Kind::IncB | Kind::SetPos | Kind::SetPosSame) { "staleness: an inc arriving more than one refresh interval + 1 ms after the last frame is not painted" } else { "staleness: a redraw request arriving at least one refresh interval after the last frame is not painted" };
                     return Err((class.into(), format!("request {:?} at {} ns, last frame at {} ns, interval {} ns", kind, t, lf, i_ns)));
                 }
             }
@@ -320,7 +326,7 @@ fn configs(tier: Tier) -> Vec<(C05, usize)> {
             for &r in &[20u8, 255] {
                 v.push((C05 { r, target: Target::Single, kinds: vec![Kind::Inc, Kind::IncBurst], gaps: pos_gaps(r), name: "position-bucket" }, 3));
                 v.push((C05 { r, target: Target::Multi, kinds: vec![Kind::Tick, Kind::Burst, Kind::TickB, Kind::IncB], gaps: vec![0, 1, interval_ns(r) - 1, interval_ns(r), 20 * interval_ns(r), 21 * interval_ns(r) + 1], name: "multi" }, 3));
-                v.push((C05 { r, target: Target::Single, kinds: vec![Kind::Tick, Kind::Inc, Kind::Burst, Kind::Msg], gaps: vec![0, 1_000_000, interval_ns(r) - 1, interval_ns(r), 21 * interval_ns(r) + 1], name: "mixed" }, 3));
+                v.push((C05 { r, target: Target::Single, kinds: vec![Kind::Tick, Kind::Inc, Kind::Burst, Kind::Msg, Kind::SetPos, Kind::SetPosSame], gaps: vec![0, 1_000_000, interval_ns(r) - 1, interval_ns(r) + 1_000_000, 21 * interval_ns(r) + 1], name: "mixed" }, 3));
             }
         }
         Tier::Thorough => {
@@ -331,7 +337,7 @@ fn configs(tier: Tier) -> Vec<(C05, usize)> {
             for &r in few {
                 v.push((C05 { r, target: Target::Single, kinds: vec![Kind::Inc, Kind::IncBurst], gaps: pos_gaps(r), name: "position-bucket" }, 4));
                 v.push((C05 { r, target: Target::Multi, kinds: vec![Kind::Tick, Kind::Burst, Kind::TickB, Kind::IncB], gaps: vec![0, 1, interval_ns(r) - 1, interval_ns(r), 20 * interval_ns(r), 21 * interval_ns(r) + 1], name: "multi" }, 4));
-                v.push((C05 { r, target: Target::Single, kinds: vec![Kind::Tick, Kind::Inc, Kind::Burst, Kind::Msg], gaps: vec![0, 1_000_000, interval_ns(r) - 1, interval_ns(r), 21 * interval_ns(r) + 1], name: "mixed" }, 4));
+                v.push((C05 { r, target: Target::Single, kinds: vec![Kind::Tick, Kind::Inc, Kind::Burst, Kind::Msg, Kind::SetPos, Kind::SetPosSame], gaps: vec![0, 1_000_000, interval_ns(r) - 1, interval_ns(r) + 1_000_000, 21 * interval_ns(r) + 1], name: "mixed" }, 4));
             }
         }
     }
